@@ -2890,6 +2890,13 @@ def fold_generated_tables(prog):
         class F(ast.NodeTransformer):
             def visit_Call(s_, node):
                 s_.generic_visit(node)
+                if isinstance(node.func, ast.Name) and node.func.id in exprfuncs and not node.keywords \
+                        and not any(isinstance(a, ast.Starred) for a in node.args):
+                    fn = exprfuncs[node.func.id]
+                    ps_ = [a.arg for a in fn.args.args]
+                    if len(ps_) == len(node.args):
+                        body_ = [b for b in fn.body if not (isinstance(b, ast.Expr) and isinstance(b.value, ast.Constant))]
+                        return ast.copy_location(_Subst(dict(zip(ps_, node.args)), {}).visit(copy.deepcopy(body_[0].value)), node)
                 if isinstance(node.func, ast.Name) and node.func.id == 'str' and len(node.args) == 1 and not node.keywords \
                         and isinstance(node.args[0], ast.Constant) and isinstance(node.args[0].value, int):
                     return ast.copy_location(ast.Constant(value=str(node.args[0].value)), node)
@@ -2917,7 +2924,35 @@ def fold_generated_tables(prog):
                 return node
         return F().visit(e)
 
+    seqs = {}          # module-level names bound once to a literal sequence (new constants): name -> Tuple / List
+    exprfuncs = {}     # new module-level functions that are one expression of their parameters: `def f(a, b): return EXPR`
+    tblf_ = known_table().get('functions', {})
+    for m_ in prog.modules.values():
+        counts = {}
+        for st_ in m_.tree.body:
+            if isinstance(st_, ast.Assign):
+                for t_ in st_.targets:
+                    for y_ in ast.walk(t_):
+                        if isinstance(y_, ast.Name):
+                            counts[y_.id] = counts.get(y_.id, 0) + 1
+        for st_ in m_.tree.body:
+            if isinstance(st_, ast.Assign) and len(st_.targets) == 1 and isinstance(st_.targets[0], ast.Name) and counts.get(st_.targets[0].id) == 1 \
+                    and isinstance(st_.value, (ast.Tuple, ast.List)) and st_.value.elts and all(
+                        isinstance(e_, (ast.Constant, ast.Attribute, ast.Tuple)) and not any(isinstance(z_, (ast.Call, ast.Name)) and not (
+                            isinstance(z_, ast.Name) and z_.id[:1].isupper()) for z_ in ast.walk(e_)) for e_ in st_.value.elts):
+                seqs[st_.targets[0].id] = st_.value
+            if isinstance(st_, ast.FunctionDef) and not st_.decorator_list and (m_.name + '.' + st_.name) not in tblf_ \
+                    and not (st_.args.vararg or st_.args.kwarg or st_.args.kwonlyargs or st_.args.defaults or st_.args.posonlyargs):
+                body_ = [b for b in st_.body if not (isinstance(b, ast.Expr) and isinstance(b.value, ast.Constant))]
+                if len(body_) == 1 and isinstance(body_[0], ast.Return) and body_[0].value is not None:
+                    ps_ = {a.arg for a in st_.args.args}
+                    free_ok = all(not isinstance(z_, ast.Name) or z_.id in ps_ or z_.id[:1].isupper() for z_ in ast.walk(body_[0].value))
+                    if free_ok and not any(isinstance(z_, (ast.Lambda, ast.Await, ast.Yield, ast.NamedExpr)) for z_ in ast.walk(body_[0].value)):
+                        exprfuncs[st_.name] = st_
+
     def elements(it):
+        if isinstance(it, ast.Name) and it.id in seqs:
+            it = seqs[it.id]
         if isinstance(it, (ast.Tuple, ast.List)):
             return list(it.elts)
         if isinstance(it, ast.Call) and isinstance(it.func, ast.Name) and it.func.id == 'range' and not it.keywords and 1 <= len(it.args) <= 3:
@@ -2955,6 +2990,21 @@ def fold_generated_tables(prog):
         """ast.Dict with constant keys for a dict display / comprehension, else None"""
         if isinstance(e, ast.Dict) and all(k is not None for k in e.keys):
             d = ast.Dict(keys=[fold(copy.deepcopy(k), tables, module) for k in e.keys], values=[fold(copy.deepcopy(v), tables, module) for v in e.values])
+        elif isinstance(e, ast.Dict):
+            # {'a': x, **{k: f(k) for k in ..}, **OTHER}: the entries in order, later ones replacing earlier ones of the same key
+            d = ast.Dict(keys=[], values=[])
+            for k, v in zip(e.keys, e.values):
+                if k is None:
+                    more = as_display(v, tables, module)
+                    if more is None and isinstance(v, ast.Name) and v.id in tables:
+                        more = tables[v.id]
+                    if more is None or not all(isinstance(k_, ast.Constant) for k_ in more.keys):
+                        return None
+                    merge(d, copy.deepcopy(more))
+                else:
+                    merge(d, ast.Dict(keys=[fold(copy.deepcopy(k), tables, module)], values=[fold(copy.deepcopy(v), tables, module)]))
+                    if not isinstance(d.keys[-1], ast.Constant):
+                        return None
         elif isinstance(e, ast.DictComp) and len(e.generators) == 1 and not e.generators[0].ifs:
             els = elements(e.generators[0].iter)
             if els is None:
@@ -3023,7 +3073,7 @@ def fold_generated_tables(prog):
                 d = as_display(st.value, tables, m)
                 if d is not None:
                     name = st.targets[0].id
-                    if isinstance(st.value, ast.DictComp):
+                    if isinstance(st.value, ast.DictComp) or any(k is None for k in st.value.keys):
                         generated.add(name)
                         st.value = ast.fix_missing_locations(ast.copy_location(d, st.value))
                         tables[name] = st.value
